@@ -4,3 +4,5 @@ import ReqVerif.Model.Select
 import ReqVerif.Props.C03
 import ReqVerif.Model.Tags
 import ReqVerif.Props.C20
+import ReqVerif.Model.Solver
+import ReqVerif.Props.C10
